@@ -65,6 +65,7 @@ func oracle(run *vh.Run, h appdrv.History, rs []appdrv.Resp) {
 	dkgFail := map[uint64]map[string]bool{}
 	seen := map[string]uint64{}
 	started := map[uint64]bool{}
+	wrapped := false
 	bad := func(key, what string, obs any) {
 		run.Violate(vh.Violation{Key: key, What: what, Case: h, Observed: obs})
 	}
@@ -141,6 +142,20 @@ func oracle(run *vh.Run, h appdrv.History, rs []appdrv.Resp) {
 				configs = append(configs, last)
 				votes = map[string]cfgKey{}
 			case "eonstarted":
+				if counter == ^uint64(0) || wrapped {
+					// the 64-bit eon counter wrapped (only reachable from a genesis whose initial eon
+					// is next to 2^64): outside the property's quantifier (the theorems carry the
+					// no-wrap hypothesis); the model comparison still covers what the code does
+					wrapped = true
+					run.Dist["eon-counter-wrapped"]++
+					counter = e.Eon
+					if executed && msg.Msg != nil && msg.Msg.GetDkgResult() != nil {
+						dkgCfg[e.Eon] = dkgCfg[msg.Msg.GetDkgResult().Eon]
+					} else {
+						dkgCfg[e.Eon] = last
+					}
+					continue
+				}
 				if e.Eon != counter+1 {
 					bad("C11:eon-not-fresh", fmt.Sprintf("call %d: eon %d started, previous counter %d", i, e.Eon, counter), e)
 				}
